@@ -415,7 +415,17 @@ impl<'a> Gen<'a> {
         let dt = m.deser_ty(t);
         let borrow = |ptr: &str, len: &str, align_ty: &str| format!("s.push({} as usize, {}, core::mem::align_of::<{}>())", ptr, len, align_ty);
         let body = match t {
-            Ty::Prim(_) | Ty::Phantom(_) | Ty::RangeFull | Ty::Range(..) => format!("f_{}(x)", k),
+            Ty::Prim(_) | Ty::Phantom(_) | Ty::RangeFull => format!("f_{}(x)", k),
+            Ty::Range(kind, e) => {
+                // the ε-copy type of a range is the range over the ε-copy type of its index
+                let f = format!("e_{}", self.k(e));
+                match kind {
+                    RangeKind::Range => format!("Val::Rec(vec![{0}(&x.start, s), {0}(&x.end, s)])", f),
+                    RangeKind::RangeFrom => format!("Val::Rec(vec![{0}(&x.start, s)])", f),
+                    RangeKind::RangeInclusive => format!("Val::Rec(vec![{0}(x.start(), s), {0}(x.end(), s)])", f),
+                    RangeKind::RangeTo | RangeKind::RangeToInclusive => format!("Val::Rec(vec![{0}(&x.end, s)])", f),
+                }
+            }
             Ty::String | Ty::BoxStr => format!("{{ {}; Val::Str(x.to_string()) }}", borrow("x.as_ptr()", "x.len()", "u8")),
             Ty::Vec(e) | Ty::BoxSlice(e) => {
                 if self.u.is_zero(e) {
